@@ -112,6 +112,9 @@ pub struct PanicRec {
 /// Payload used to unwind an invocation at an injected crash point; never a "panic".
 pub struct CrashPayload;
 
+/// Payload used to end an invocation whose code called `process::exit(status)`.
+pub struct ExitPayload(pub i32);
+
 #[derive(Default)]
 pub struct Ctx {
     pub root: PathBuf,
